@@ -41,22 +41,29 @@ func (fv *FuncVer) smtGround(q *Query) string {
 			assumptions[i] = fv.skolemEx(a, nil, fmt.Sprintf("w%d", i))
 		}
 	}
-	insts := instantiate(assumptions, q.Goal, 3, 600)
+	goal := q.Goal
+	// equal slices (e.g. "the revert update carries the diffs of the apply update"): rewrite one
+	// into the other so that matching, which is syntactic here, sees through the equation
+	assumptions, goal = propagateSliceEqs(fv.ctx, assumptions, goal)
+	insts := instantiate(assumptions, goal, 3, 600)
 	if len(insts) == 0 {
 		return ""
 	}
-	var as []*Term
+	// (forall d . P) ==> Q, where the antecedent is literally one of the universal assumptions
+	// (typically the hypothesis of a frame condition): keep Q
+	univ := map[string]bool{}
 	for _, a := range assumptions {
+		if a.Q != nil && a.Q.Forall {
+			univ[quantKey(a)] = true
+		}
+	}
+	var as []*Term
+	for _, a := range append(append([]*Term{}, assumptions...), insts...) {
+		a = dischargeAntecedents(a, univ)
 		if !hasQuant(a) {
 			as = append(as, a)
 		}
 	}
-	for _, a := range insts {
-		if !hasQuant(a) {
-			as = append(as, a)
-		}
-	}
-	goal := q.Goal
 	if hasExists(goal) {
 		// an existential goal is replaced by the disjunction of its instances at the candidate
 		// witnesses found among the ground terms (a stronger goal: proving it proves the original)
@@ -64,6 +71,136 @@ func (fv *FuncVer) smtGround(q *Query) string {
 		goal = witnessGoal(goal, pool)
 	}
 	return fv.smtText(&Query{Assumptions: as, Goal: goal}, true)
+}
+
+// quantKey: a universal formula up to its triggers.
+func quantKey(t *Term) string {
+	var sb strings.Builder
+	for _, v := range t.Q.Vars {
+		sb.WriteString(v.Op + ":" + v.Sort.Name + ";")
+	}
+	sb.WriteString(t.Q.Body.String())
+	return sb.String()
+}
+
+func dischargeAntecedents(t *Term, univ map[string]bool) *Term {
+	switch {
+	case t.Op == "=>" && len(t.Args) == 2:
+		a := t.Args[0]
+		if a.Q != nil && a.Q.Forall && univ[quantKey(a)] {
+			return dischargeAntecedents(t.Args[1], univ)
+		}
+		nb := dischargeAntecedents(t.Args[1], univ)
+		if nb != t.Args[1] {
+			return Implies(a, nb)
+		}
+	case t.Op == "and":
+		args := make([]*Term, len(t.Args))
+		changed := false
+		for i, x := range t.Args {
+			args[i] = dischargeAntecedents(x, univ)
+			changed = changed || args[i] != x
+		}
+		if changed {
+			return And(args...)
+		}
+	}
+	return t
+}
+
+// propagateSliceEqs rewrites x into y for every assumed equation x == y between two ground,
+// non-literal terms of the slice sort (x the larger term).
+func propagateSliceEqs(c *Ctx, as []*Term, goal *Term) ([]*Term, *Term) {
+	type eq struct{ from, to *Term }
+	var eqs []eq
+	for _, a := range as {
+		if a.Op == "=" && len(a.Args) == 2 && a.Args[0].Sort == c.SSlice && !hasQuant(a) {
+			x, y := a.Args[0], a.Args[1]
+			if x.IsLit || y.IsLit || resolve(x).Op == c.SSlice.DT.Ctor || resolve(y).Op == c.SSlice.DT.Ctor {
+				continue
+			}
+			if len(x.String()) < len(y.String()) {
+				x, y = y, x
+			}
+			if strings.Contains(y.String(), x.String()) {
+				continue
+			}
+			eqs = append(eqs, eq{x, y})
+		}
+	}
+	if len(eqs) == 0 {
+		return as, goal
+	}
+	out := make([]*Term, len(as))
+	copy(out, as)
+	for _, e := range eqs {
+		key := e.from.String()
+		memo := map[*Term]*Term{}
+		for i, a := range out {
+			if a.Op == "=" && len(a.Args) == 2 && (a.Args[0].String() == key || a.Args[1].String() == key) {
+				continue // keep the equation itself
+			}
+			out[i] = replaceByString(a, key, e.to, memo)
+		}
+		goal = replaceByString(goal, key, e.to, memo)
+	}
+	return out, goal
+}
+
+func replaceByString(t *Term, key string, to *Term, memo map[*Term]*Term) *Term {
+	if t == nil {
+		return nil
+	}
+	if r, ok := memo[t]; ok {
+		return r
+	}
+	if t.Q == nil && t.Sort == to.Sort && t.String() == key {
+		memo[t] = to
+		return to
+	}
+	if t.Q != nil {
+		nb := replaceByString(t.Q.Body, key, to, memo)
+		var np []*Term
+		changed := nb != t.Q.Body
+		for _, p := range t.Q.Pats {
+			x := replaceByString(p, key, to, memo)
+			changed = changed || x != p
+			np = append(np, x)
+		}
+		r := t
+		if changed {
+			r = &Term{Sort: SBool, Q: &Quant{Forall: t.Q.Forall, Vars: t.Q.Vars, Body: nb, Pats: np}}
+		}
+		memo[t] = r
+		return r
+	}
+	if len(t.Args) == 0 {
+		if t.Sym != nil && t.Sym.Def != nil {
+			// a named definition: look inside
+			nd := replaceByString(t.Sym.Def, key, to, memo)
+			if nd != t.Sym.Def {
+				memo[t] = nd
+				return nd
+			}
+		}
+		memo[t] = t
+		return t
+	}
+	args := make([]*Term, len(t.Args))
+	changed := false
+	for i, a := range t.Args {
+		args[i] = replaceByString(a, key, to, memo)
+		changed = changed || args[i] != a
+	}
+	r := t
+	if changed {
+		r = &Term{Op: t.Op, Args: args, Sort: t.Sort, Sym: t.Sym}
+		if t.Op == "const-array" {
+			r = ConstArray(t.Sort, args[0])
+		}
+	}
+	memo[t] = r
+	return r
 }
 
 func hasExists(t *Term) bool {
